@@ -165,3 +165,10 @@ func c12Priv(d []byte, x, y []byte) *PrivateKey {
 }
 
 var _ = ecdsa.PublicKey{}
+
+func _sm2ecResetGhost() { _sm2ec.VerifBaseScalars = nil }
+
+func _sm2ecLastBaseScalarIs(k []byte) bool {
+	bs := _sm2ec.VerifBaseScalars
+	return len(bs) >= 1 && verifEqBytes(bs[len(bs)-1], k)
+}
